@@ -10,9 +10,11 @@
 """
 import ast
 import itertools
+import re
 
 from ..core.astutil import u, call_name, calls, iter_stmts, const, index_elts, ncmp, dot_args
 from ..core.index import AnalysisError
+from ..core.inline import normalise_statements
 
 O = "distance3d.gjk._gjk_original"
 # the one documented tie rule: face 1-2-3 may replace an equally good interior solution
@@ -78,13 +80,76 @@ def r_johnson(idx, rep, rule="R-JOHNSON"):
             if isinstance(r_, ast.Return) and isinstance(r_.value, ast.Subscript) and isinstance(r_.value.slice, ast.Slice) and isinstance(r_.value.value, ast.Name):
                 OI = r_.value.value.id
                 NP = u(r_.value.slice.upper)
-        # initial vertex 0
-        init = [st for st in f.node.body if isinstance(st, ast.Expr) and isinstance(st.value, ast.Call) and u(st.value.func) == sol + ".from_vertex"]
-        oi0 = [st for st in f.node.body if isinstance(st, ast.Assign) and u(st.targets[0]).startswith(OI + "[0]")]
-        ok = bool(init) and const(init[0].value.args[1]) == 0 and bool(oi0) and const(oi0[0].value) == 0
-        rep.check(ok, rule, f.key + "|(0,) initial", f.where, "the procedure must start from vertex 0 with ordered_indices[0] = 0")
+        # vertex candidates are judged by their EFFECTS on the normal form of the body (helpers, straight-line methods such as
+        # Solution.from_vertex and literal loops expanded): however the code is organised, adopting vertex v must leave
+        # coords[0] = 1, search_direction = points[v], distance_squared = <v, v>, ordered_indices[0] = v, n_simplex_points = 1
+        ns = normalise_statements(idx, f.module, f.node.body)
+
+        def vertex_effects(block, v, env):
+            env = dict(env)
+            got = {}
+            for s_ in block:
+                if isinstance(s_, ast.Assign) and len(s_.targets) == 1:
+                    t, val = s_.targets[0], s_.value
+                    if isinstance(t, ast.Name):
+                        env[t.id] = val
+                    if isinstance(val, ast.Name) and val.id in env:
+                        val = env[val.id]
+                    got[u(t)] = u(val).replace(" ", "")
+            want = {sol + ".barycentric_coordinates[0]": ("1.0", "1"), sol + ".search_direction": ("%s.points[%s]" % (simplex, v),),
+                    sol + ".distance_squared": ("%s.dot_product_table[%s,%s]" % (simplex, v, v),), OI + "[0]": (str(v),), NP: ("1",)}
+            return [k for k, vals in want.items() if got.get(k) not in vals], got
+        top_env = {}
+        top_plain = [s_ for s_ in ns if not isinstance(s_, (ast.If, ast.For, ast.While))]
+        missing0, _ = vertex_effects(top_plain, 0, {})
+        ok = not missing0
+        rep.check(ok, rule, f.key + "|(0,) initial", f.where, "the procedure must start from vertex 0 (coords[0] = 1, its point, its squared norm, ordered_indices[0] = 0, "
+                                                             "n_simplex_points = 1); not established: %s" % missing0)
         if ok:
             cands.add((0,))
+        env_run = {}
+        for s_ in ns:
+            if isinstance(s_, ast.Assign) and len(s_.targets) == 1 and isinstance(s_.targets[0], ast.Name):
+                env_run[s_.targets[0].id] = s_.value
+                continue
+            if not isinstance(s_, ast.If):
+                continue
+            t_ = s_.test
+            if isinstance(t_, ast.Name) and t_.id in env_run:
+                t_ = env_run[t_.id]
+            if ncmp(t_) is None:
+                continue
+            op, a_, b_ = ncmp(t_)
+            if isinstance(a_, ast.Name) and a_.id in env_run:
+                a_ = env_run[a_.id]
+            mm = re.fullmatch(r"%s\.dot_product_table\[(\d), (\d)\]" % re.escape(simplex), u(a_))
+            if not mm or u(b_) != sol + ".distance_squared":
+                continue
+            diag = (int(mm.group(1)), int(mm.group(2)))
+            v = diag[0]
+            # the candidate is named by the vertex most of its parts agree on (test, recorded index, point, squared norm)
+            votes = [diag[0]]
+            for x in s_.body:
+                if isinstance(x, ast.Assign) and len(x.targets) == 1:
+                    val = env_run.get(x.value.id, x.value) if isinstance(x.value, ast.Name) else x.value
+                    if u(x.targets[0]) == OI + "[0]" and isinstance(const(val), int):
+                        votes.append(const(val))
+                    m2 = re.fullmatch(r"%s\.points\[(\d)\]" % re.escape(simplex), u(val)) if u(x.targets[0]) == sol + ".search_direction" else None
+                    m3 = re.fullmatch(r"%s\.dot_product_table\[(\d), \1\]" % re.escape(simplex), u(val)) if u(x.targets[0]) == sol + ".distance_squared" else None
+                    for m_ in (m2, m3):
+                        if m_:
+                            votes.append(int(m_.group(1)))
+            v = max(sorted(set(votes)), key=votes.count)
+            where = "%s:%d" % (f.module.relpath, s_.lineno)
+            key = "%s|(%s,)" % (fname, v)
+            cands.add((v,))
+            rep.check(op == "<" and diag == (v, v), rule, key + " strict acceptance", where,
+                      "vertex %s must be accepted under dot_product_table[%s, %s] < solution.distance_squared (found `%s`)" % (v, v, v, u(t_)))
+            missing, got = vertex_effects(s_.body, v, env_run)
+            rep.check(not missing, rule, key + " records its vertices", where,
+                      "adopting vertex %s must set coords[0] = 1.0, search_direction = points[%s], distance_squared = <%s, %s>, ordered_indices[0] = %s and "
+                      "n_simplex_points = 1; not established on this path: %s (a weight left over from a previously accepted segment / face scales the "
+                      "closest points although the distance is right)" % (v, v, v, v, v, missing))
         locs = {st.targets[0].id: st.value for st in f.node.body if isinstance(st, ast.Assign) and isinstance(st.targets[0], ast.Name)}
         for st in f.node.body:
             if not isinstance(st, ast.If):
@@ -92,7 +157,6 @@ def r_johnson(idx, rep, rule="R-JOHNSON"):
             where = "%s:%d" % (f.module.relpath, st.lineno)
             test = locs.get(st.test.id, st.test) if isinstance(st.test, ast.Name) else st.test
             fl = [c for c in calls(st.body) if isinstance(c.func, ast.Attribute) and c.func.attr in ("from_line_segment", "from_face", "from_tetrahedron")]
-            fv = [c for c in calls(st.body) if isinstance(c.func, ast.Attribute) and c.func.attr == "from_vertex"]
             if fl:
                 c = fl[0]
                 kind = c.func.attr
@@ -153,19 +217,6 @@ def r_johnson(idx, rep, rule="R-JOHNSON"):
                 rep.check(acc_ok, rule, key + " strict acceptance", where, "candidate %s is not accepted under `solution_d.distance_squared < solution.distance_squared`" % vlist)
                 rep.check(oi_ok and n_ok, rule, key + " records its vertices", where,
                           "after accepting candidate %s, ordered_indices / n_simplex_points do not record exactly that vertex list in order" % vlist)
-            elif fv:
-                v = const(fv[0].args[1])
-                key = "%s|(%s,)" % (fname, v)
-                cands.add((v,))
-                ok = False
-                if ncmp(test) is not None:
-                    op, a_, b_ = ncmp(test)
-                    ok = op == "<" and u(a_) == "%s.dot_product_table[%s, %s]" % (simplex, v, v) and sol in u(b_)
-                rep.check(ok, rule, key + " strict acceptance", where, "vertex %s must be accepted under dot_product_table[%s, %s] < solution.distance_squared" % (v, v, v))
-                oi = [s for s in st.body if isinstance(s, ast.Assign) and u(s.targets[0]) == OI + "[0]"]
-                nn = [s for s in st.body if isinstance(s, ast.Assign) and u(s.targets[0]) == NP]
-                rep.check(bool(oi) and const(oi[0].value) == v and bool(nn) and const(nn[0].value) == 1, rule, key + " records its vertices", where,
-                          "vertex candidate %s does not record ordered_indices[0] = %s and n_simplex_points = 1" % (v, v))
         found[fname] = (n, cands)
         rets = [s for s in iter_stmts(f.node.body) if isinstance(s, ast.Return)]
         rep.check(len(rets) == 1 and u(rets[0].value) == "%s[:%s]" % (OI, NP), rule, f.key + "|returns the recorded subset", f.where,
